@@ -7,6 +7,7 @@ import impl
 
 PID = "C15"
 LEAN_MODULES = ["BtcHd.Props.C15"]
+LEAN_MODULES_THOROUGH = ['BtcHd.Props.TrPaper']
 TRUSTED_BASE = common.CORE_TRUSTED
 ASSUMPTIONS = ["secrets are identified by position and by decodability as a private-key encoding (see DESIGN §5 C15)"]
 RULE = "as C06, through paranoia_mode; non-trivial = distinct filtered report with at least one row"
@@ -166,3 +167,37 @@ def oracle(line, out):
 
 
 known_match = common.no_known
+
+
+def extra_checks(rng, tier, g, info):
+    """the command line with --paranoia and a --file target of every odd class (regular file as parent, trailing slash,
+    over-long name, symlink loop, dangling symlink, existing file named with a trailing slash, read-only parent):
+    whatever happens to the export, NOTHING the run prints or writes may contain a secret of the wallet"""
+    import json
+    from .c20 import SEED
+    w = impl.make_wallet("seedh:%s:0" % sx(SEED))
+    secrets = set()
+    for acct, iv in ((0, (0, 20)), (1, (0, 2))):
+        for path, leaf in leaves(json.loads(json.dumps(w.generate(account=acct, interval=iv)))):
+            is_secret = (path[0] in ("MASTER", "BIP85")) or path[-1] == "prv" or \
+                (len(path) >= 3 and path[1] == "groups" and path[-1] == 3)
+            if is_secret and isinstance(leaf, str) and len(leaf) >= 16:
+                secrets.add(leaf)
+    n = 0
+    for fsk in ("parentfile", "trailslash", "longname", "symloop", "dangling", "filetrail", "filetraildot", "dir", "noparent",
+                "file", "absent"):
+        for extra in (["--account", "1", "--interval", "0", "2"], []):
+            argv = ["--paranoia", "--file", "@F"] + extra + ["from-bip39-seed", SEED]
+            if rng.random() < 0.5:
+                argv = argv[1:3] + ["--paranoia"] + argv[3:]
+            canon, det = impl.cli_run(fsk, bytes(40), argv)
+            n += 1
+            texts = [det.get("stdout") or "", det.get("created") or ""]
+            for tx in texts:
+                hit = next((s_ for s_ in secrets if s_ in tx), None)
+                if hit:
+                    yield ("cli %s %s %s" % (fsk, hx(bytes(40)), ",".join(sx(a) for a in argv)),
+                           "a --paranoia run (exit status %s) printed / wrote a secret of the wallet: %s..." % (
+                               det.get("status"), hit[:24]))
+                    break
+    info["paranoia_cli_file_targets"] = n
